@@ -74,6 +74,11 @@ theorem step_prefix {s s' : State} {op : Op} {r : Res} (hw : WF s) (e : step s o
       · cases e; exact PrefixKept.refl _ _
     · cases e; exact PrefixKept.refl _ _
   | curFromBuf c b => simp only [step] at e; cases e; exact prefixKept_setCur i
+  | curSub dst src off len =>
+    simp only [step] at e
+    split at e
+    · cases e; exact prefixKept_setCur i
+    · cases e; exact PrefixKept.refl _ _
   | bufFromArray b bs =>
     simp only [step] at e
     split at e
